@@ -335,6 +335,15 @@ Definition judge_seq (cs : list call) (out : J) : option (bool * bool) :=
   | _ => None
   end.
 
+(* ---------- the views of one run's duration ---------- *)
+(* the model's to_json entry when the clock oracle says (end - start) = d ns *)
+Definition model_time_ms (metrics : store) (d : Z) : option Z :=
+  json_time (MS metrics (Some 0) (Some d) false).
+Definition NS_PER_MS : Z := 1000000.
+Definition zsum (l : list Z) : Z := fold_right Z.add 0 l.
+Definition zmax (l : list Z) : Z := fold_right Z.max 0 l.
+Definition clamp_ms (x : Z) : Z := Z.max 0 (Z.min 3000 x).
+
 (* ---------- pipelines with / without a collector ---------- *)
 Definition BIG : N := 4611686018427387903%N.      (* 2^62 - 1 *)
 Definition poison_calls : list call := repeat (Incr 900 BIG) 5.
@@ -376,7 +385,7 @@ Fixpoint outcomes_eqb (a b : list (outcome J)) : bool :=
   end.
 
 Definition judge_transparent (regs : list (name * metric)) (errs : list Z) (poisoned : bool)
-           (jwith jwithout rest : J) : option (bool * bool) :=
+           (slept_ms : Z) (jwith jwithout rest : J) : option (bool * bool) :=
   match jwith, jwithout with
   | JL lw, JL lwo =>
       match omap dec_outcome lw, omap dec_outcome lwo with
@@ -386,23 +395,42 @@ Definition judge_transparent (regs : list (name * metric)) (errs : list Z) (pois
           let '(want, mf) := model_runs 0 errs wos m0 in
           let names := map fst regs in
           match rest with
-          | JL [JS t; JB el; jkeys; JB got; JB taken; JB gone; JB elpos] =>
+          | JL [JS t; JB el; jkeys; JB got; JB taken; JB gone; JB elpos; JL [JI window; jel; jms]] =>
               match jints jkeys with
               | Some keys =>
                   let last_ok := match rev ws with w :: _ => is_ok w | [] => false end in
+                  (* a successful last run slept slept_ms between its two stamps *)
+                  let lo_ms := if last_ok then slept_ms else 0 in
+                  let time_agree :=
+                    match jel, jms with
+                    | JN, JN => negb el
+                    | JI d, JI ms =>
+                        el && (lo_ms * NS_PER_MS <=? d) && (d <=? window) &&
+                        match model_time_ms (ms_metrics mf) d with
+                        | Some want => ms =? want
+                        | None => false
+                        end
+                    | _, _ => false
+                    end in
+                  let time_prop :=
+                    match jel, jms with
+                    | JN, JN => true
+                    | JI d, JI ms => (ms =? d / 1000000) && (lo_ms <=? ms)
+                    | _, _ => false
+                    end in
                   let agree :=
                     outcomes_eqb ws want && negb (ms_poisoned mf) &&
                     Bool.eqb el (match elapsed mf with Some _ => true | None => false end) &&
                     (* the clock ticks between the two stamps of one run: elapsed is positive
                        exactly when the end stamp is later than the start stamp *)
                     Bool.eqb elpos (match elapsed mf with Some d => 0 <? d | None => false end) &&
-                    zlist_eqb keys (zsort (json_keys mf)) && got && taken && gone in
+                    zlist_eqb keys (zsort (json_keys mf)) && got && taken && gone && time_agree in
                   let prop :=
                     outcomes_eqb ws wos &&
                     (if existsb is_ok ws then el else true) &&
                     (if last_ok then el && elpos else true) &&
                     (if el then zmem exec_time_name keys else true) &&
-                    forallb (fun n => zmem n keys) names && got && taken && gone in
+                    forallb (fun n => zmem n keys) names && got && taken && gone && time_prop in
                   Some (agree, prop)
               | None => None
               end
@@ -474,13 +502,17 @@ Definition check_C16 (kind : string) (input output : J) : verdict :=
     (* the 8th component is the Runner configuration (checkpoint_config None / disabled / enabled
        with each policy, collect_seq/collect_par helpers): the model's run_collect is abstract in
        the engine, so its prediction is the same for every configuration *)
-    | JL (JI _ :: JI _ :: JL _ :: JI _ :: jregs :: jerrs :: JI poisoned :: cfg),
+    | JL (JI pipe :: JI mode :: JL jdata :: JI _ :: jregs :: jerrs :: JI poisoned :: cfg),
       JL [JS _; jwith; jwithout; rest] =>
         match cfg with
         | [] | [JI _] =>
             match dec_metrics jregs, jints jerrs with
             | Some regs, Some errs =>
-                match judge_transparent regs errs (negb (poisoned =? 0)) jwith jwithout rest with
+                (* pipe 5: the closure sleeps clamp(x) ms per element - one after the other in
+                   Sequential mode, at least the longest of them in Parallel mode *)
+                let sleeps := match jints (JL jdata) with Some l => map clamp_ms l | None => [] end in
+                let slept_ms := if pipe =? 5 then (if mode =? 0 then zsum sleeps else zmax sleeps) else 0 in
+                match judge_transparent regs errs (negb (poisoned =? 0)) slept_ms jwith jwithout rest with
                 | Some (a, p) => V a p (negb (poisoned =? 0)) false
                 | None => malformed
                 end
@@ -492,15 +524,38 @@ Definition check_C16 (kind : string) (input output : J) : verdict :=
     end
   else if String.eqb kind "export" then
     (* in = [metrics, stamps, via_all]; out = [ok, snapshot keys, to_json keys, every entry has a
-       "value" field, keys of the file written by save_to_file, counters] *)
+       "value" field, keys of the file written by save_to_file, counters, time]; stamps = k >= 1:
+       k-1 ms asleep between record_start and record_end; time = [lo, hi, elapsed() in ns,
+       execution_time_ms of to_json, of the file], lo..hi = the harness's bracket of (end - start) *)
     match input, output with
     | JL [jms; JI stamps; JI via_all],
-      JL [JS _; jsnap; jjson; JB shaped; jfile; JL jcounters] =>
+      JL [JS _; jsnap; jjson; JB shaped; jfile; JL jcounters; JL [JI lo; JI hi; jel; jtms; jfms]] =>
         match dec_metrics jms, jints jsnap, jints jjson, omap jints jcounters with
         | Some ms, Some ksnap, Some kjson, Some counters =>
             let regs := if via_all =? 0 then map (fun p => Reg (fst p) (snd p)) ms else [RegAll ms] in
-            let final := run_calls (regs ++ (if stamps =? 0 then [] else [RecStart 0; RecEnd 1]))
+            (* the clock oracle: the two readings are d ns apart *)
+            let d := match jel with JI d => d | _ => 1 end in
+            let final := run_calls (regs ++ (if stamps =? 0 then [] else [RecStart 0; RecEnd d]))
                                    empty_state in
+            let slept := stamps - 1 in
+            let time_agree :=
+              match jel, jtms, jfms with
+              | JN, JN, JN => (stamps =? 0) && match elapsed final with None => true | _ => false end
+              | JI d, JI ms, JI fms =>
+                  negb (stamps =? 0) && (lo <=? d) && (d <=? hi) && (slept * NS_PER_MS <=? lo) &&
+                  match elapsed final, json_time final with
+                  | Some e, Some want => (e =? d) && (ms =? want) && (fms =? want)
+                  | _, _ => false
+                  end
+              | _, _, _ => false
+              end in
+            let time_prop :=
+              match jel, jtms, jfms with
+              | JN, JN, JN => stamps =? 0
+              | JI d, JI ms, JI fms =>
+                  (ms =? d / 1000000) && (fms =? ms) && (slept <=? ms) && (slept * 1000000 <=? d)
+              | _, _, _ => false
+              end in
             let want_counters :=
               flat_map (fun p => match snd p with
                                  | Counter c => [[fst p; Z.of_N c]]
@@ -516,10 +571,11 @@ Definition check_C16 (kind : string) (input output : J) : verdict :=
                  | [], [] => true
                  | x :: a', y :: b' => zlist_eqb x y && leq a' b'
                  | _, _ => false
-                 end) counters want_counters in
+                 end) counters want_counters && time_agree in
             let prop :=
               forallb (fun n => zmem n ksnap && zmem n kjson && zmem n kfile) names && shaped &&
-              (if stamps =? 0 then true else zmem exec_time_name kjson && zmem exec_time_name kfile) in
+              (if stamps =? 0 then true else zmem exec_time_name kjson && zmem exec_time_name kfile) &&
+              time_prop in
             ok_verdict agree prop
         | _, _, _, _ => malformed
         end
